@@ -26,10 +26,25 @@ def module_for(prop):
     raise SystemExit("no check for %s" % prop)
 
 
+def selftest():
+    """Development gate, not a property check: environment fidelity (harness/fidelity.py) and the demonstration that
+    the trace specification is bound to the code (corrupted traces are rejected)."""
+    import json
+    from harness import fidelity
+    rc = fidelity.main()
+    from harness.props import mailbox
+    ok, out = mailbox.binding_demo()
+    print(json.dumps({"trace_binding": out}, indent=1))
+    print("BINDING %s" % ("ok" if ok else "NOT DEMONSTRATED"))
+    return 0 if (rc == 0 and ok) else 1
+
+
 def main(argv):
-    if len(argv) < 2:
+    if len(argv) < 1 or (len(argv) < 2 and argv[0] != "selftest"):
         print(__doc__)
         return 2
+    if argv[0] == "selftest":
+        return selftest()
     prop = argv[0]
     if argv[1] == "--replay":
         mod = module_for(prop)
